@@ -11,6 +11,7 @@
 -/
 import BioCantor.Proofs.TabCodon
 import BioCantor.Proofs.TabAlgebra
+import BioCantor.Proofs.TabHist
 namespace BioCantor.Props.C15
 open BioCantor BioCantor.GenP BioCantor.Spec.Tab BioCantor.Model.Tab BioCantor.Proofs.Tab
 
@@ -99,6 +100,30 @@ theorem strict_codon_spec (val : List Char) (hv : (expansions val).isSome = true
 /-- `Codon.__init__` accepts exactly the IUPAC letters -/
 theorem codon_alphabet_is_iupac (c : Char) : Gen.codonAlphabet.contains c = iupacLetters.contains c :=
   codonAlphabet_contains c
+
+/-! ### 1b. histories: a held codon object is a function of its value -/
+
+/-- T7b: `Codon(s)` — acceptance and value — depends only on the upper-cased text (one singleton per value) -/
+theorem codon_depends_only_on_upper_text (s s' : List Char) (h : upper s = upper s') : mkCodon s = mkCodon s' :=
+  mkCodon_congr s s' h
+example : upper "aTg".toList = upper "ATG".toList := by decide
+
+/-- T7c: every answer a codon object gives (str, translate strict / non-strict, stop, strict, canonical start,
+    start membership in tables 0 / 1 / 11, synonymous codons with and without self) is the table answer of its
+    value — the answer record is a function of the value alone -/
+theorem codon_answers_are_table_answers (v : List Char) (hv : (expansions v).isSome = true) :
+    okCodonAnswers v (toSpecAnswers (answers v)) = true :=
+  answers_ok v hv
+example : (expansions "TGA".toList).isSome = true ∧ (answers "TGA".toList).stop = some true := by decide +kernel
+
+/-- T7d (history): hold `Codon(held)`, construct ANY list of other spellings (accepted or refused), ask again:
+    answers before = answers after = table answers of `upper(held)`; a spelling is accepted iff it is an IUPAC
+    triplet and returns the held object iff it upper-cases to the held value; identity, `==` and hash hold.
+    (The model has no state because the library files and stores a codon under the same upper-cased text; the
+    history leg of the harness checks exactly that on the real objects.) -/
+theorem codon_history_spec (held : List Char) (sps : List (List Char)) :
+    okHist held sps ((ansP (hist held sps)).map toSpecHist) = true :=
+  hist_ok held sps
 
 /-! ### 2. complement maps and alphabets -/
 
